@@ -269,6 +269,9 @@ func smRunCrashCase(t vk.TB, st *vk.Stats, c smCase, mode string) {
 				st.Label("join-skipped:mirror-histories-differ")
 			case !res.synced && res.deadEnd != "":
 				st.Label("join-skipped:" + res.deadEnd)
+			case res.posH > rres.posH || (res.posH == rres.posH && res.posR > rres.posR):
+				// a timeout that elapsed only in the run with the stop took the machine past the reference position: nothing was lost
+				st.Label("joined-ahead-of-reference")
 			case !res.synced || res.posH != rres.posH || res.posR != rres.posR:
 				f = &smFailure{prop: "C10", clause: "not-rejoined", detail: fmt.Sprintf(
 					"after the stop (%s) and redelivery the machine ends at %d/%d (in sync with the mirror: %v); without the stop it ends at %d/%d; entrances with stop: %s; without: %s",
